@@ -37,7 +37,7 @@ func runStop(k int) {
 		return
 	}
 	nV := 8 + rng.Intn(25)
-	kinds := []string{"actor", "actor", "trap", "raw"}
+	kinds := []string{"actor", "actor", "trap", "raw", "actor!", "raw!"}
 	type slot struct {
 		v     *victim
 		b     *block
@@ -56,6 +56,9 @@ func runStop(k int) {
 		case 0, 1: // asleep
 		default: // parked in a handler that afterwards returns nil / error / panics
 			s.b = &block{Entered: make(chan struct{}), Release: make(chan struct{}), Then: []string{"", "", "err", "panic"}[rng.Intn(4)]}
+			if v.tpanic && v.kind == "raw" && s.b.Then == "panic" {
+				s.b.Then = "err" // double panic (run + terminate) is examined in child processes only (see isolate.go)
+			}
 		}
 		if rng.Intn(3) == 0 {
 			s.extra = []string{"kill", "kill2", "errmsg", "panicmsg"}[rng.Intn(4)] // direct node calls only: the agents are shutting down too
